@@ -800,6 +800,9 @@ func replaceAt(v interface{}, path []string, raw string) interface{} {
 func d13Template(uid, ns string) map[string]interface{} {
 	att := func(name string) map[string]interface{} {
 		m := map[string]interface{}{"name": name, "labels": map[string]interface{}{"l": "1"}, "annotations": map[string]interface{}{"k": "v"}}
+		if ns != "" {
+			m["namespace"] = ns
+		}
 		return map[string]interface{}{"apiVersion": "v1", "kind": "ConfigMap", "metadata": m, "data": map[string]interface{}{"value": "v1"}}
 	}
 	return map[string]interface{}{
@@ -820,9 +823,13 @@ func TestVerif_C13_DecoratorGrammar(t *testing.T) {
 		Target           string
 	}
 	var cases []cs
-	for _, target := range []string{"Thing", "NoStatus"} {
+	for _, target := range []string{"Thing", "NoStatus", "ClusterThing"} {
 		for _, hook := range []string{"sync", "finalize"} {
 			tmpl := d13Template("UID", "")
+			if target == "ClusterThing" {
+				// cluster-scoped target: its namespaced attachments name their namespace
+				tmpl = d13Template("UID", "ans-UID")
+			}
 			var paths [][]string
 			jsonPaths(tmpl, nil, &paths)
 			for _, p := range paths {
